@@ -38,6 +38,38 @@ def raise_key(obs):
     return "fmt-raises:%s:%s" % (m.group(1), re.sub(r"'\w+'", "T", m.group(2))[:60])
 
 
+# JSON operator name -> key of the parser's operator table (hand-written renderers)
+HAND_KEY = {"not": "not", "binary_not": "u~", "between": "between", "not_between": "not between", "in": "in",
+            "nin": "not in", "missing": "is", "exists": "is not", "regexp": "regexp", "not_regexp": "not regexp"}
+ATOMIC = {"fn", "concat", "neg", "cast", "case"}  # written in function / keyword syntax: operands are enclosed
+
+
+def level_table(gen):
+    lv = {o["key"]: o["level"] for o in gen["ops"]}
+    out = {}
+    for o in gen["fmt_ops"]:
+        if o.get("key") in lv:
+            out[o["name"]] = lv[o["key"]]
+    for name, key in HAND_KEY.items():
+        if key in lv:
+            out[name] = lv[key]
+    return out
+
+
+def parser_keeps(levels, outer, slot, inner):
+    """would the parser keep `inner`, written WITHOUT parentheses, as operand `slot` of `outer`?"""
+    if outer in ATOMIC or inner in ATOMIC:
+        return True
+    if outer in ("in", "nin") and slot == 1:
+        return True
+    if outer not in levels or inner not in levels:
+        return True
+    lo, li = levels[outer], levels[inner]
+    if slot == 0:
+        return li <= lo
+    return li < lo
+
+
 def norm_sql(s):
     return re.sub(r"\s+", "", s).upper()
 
@@ -95,6 +127,8 @@ def run(ctx, budget=None):
     # ---- exhaustive depth 2
     d2 = list(g.depth2())
     measured_bad = set()
+    risky = set()
+    levels = level_table(ctx.gen)
     reqs, req_meta = [], []
     for triple, t in d2:
         rep.count("outer", triple[0])
@@ -103,13 +137,26 @@ def run(ctx, budget=None):
         rep.count("origin", "depth2")
         if sql:
             rep.sample({"tree": t, "format": sql})
-        if not okk:
-            measured_bad.add(triple)
+        # does the formatter write the inner operator bare?  (measured on the real output)
+        latent = False
+        if okk and sql:
+            v = next(iter(t.values()))
+            kids = [v[0]["when"], v[0]["then"], v[1]] if triple[0] == "case" else (v if isinstance(v, list) else [v])
+            inner_tree = kids[triple[1]] if triple[1] < len(kids) else None
+            fi = R.format_raw({"select": {"value": inner_tree}}) if inner_tree is not None else ("err",)
+            if fi[0] == "ok":
+                inner_sql = fi[1][len("SELECT "):]
+                bare = ("(" + inner_sql + ")") not in sql
+                if bare and not parser_keeps(levels, *triple):
+                    latent = True
+        if not okk or latent:
+            (measured_bad if not okk else risky).add(triple)
             key, sub = rule_of(triple)
-            if raise_key(obs):
+            if not okk and raise_key(obs):
                 key, sub = raise_key(obs), None
             rep.count("finding", key)
-            rep.finding(key, "format(%s): %s" % (json.dumps(t), obs), {"tree": t, "observed": obs, "embedding": "select"}, sub=sub)
+            what = obs if not okk else ("written bare although the parser binds it looser: breaks as soon as a looser operator surrounds it (%r)" % sql)
+            rep.finding(key, "format(%s): %s" % (json.dumps(t), what), {"tree": t, "observed": what, "embedding": "select"}, sub=sub)
         else:
             # other embeddings only matter when the plain one is fine
             for kind in EMBED[1:]:
@@ -123,7 +170,8 @@ def run(ctx, budget=None):
         if tt is not None and ctx.driver:
             reqs.append({"op": "fmt", "t": tt})
             req_meta.append((triple, t))
-    known_edges = set(measured_bad)
+    known_edges = set(measured_bad) | risky
+    rep.coverage["latent_triples"] = len(risky)
 
     # ---- correspondence of the Operator model: text and parse of the formatter's output
     if ctx.driver:
